@@ -357,16 +357,25 @@ def checkpoint_body(c):
     import autograd.numpy as anp
 
     nargs = c.int(1, 3)
-    form = c.int(0, 3)
+    form = c.int(0, 5)
     vseed = c.seed()
     kw_scale = c.choice([1.0, 2.0, -0.5])
     n = c.int(1, 3)
     (W,), _ = values.generic(vseed, [(nargs, n)], -1.0, 1.0)
 
+    # form 5: checkpoint applied directly to a derivative operator's result on a primitive (not to a def / lambda)
+    dtanh_plain = autograd.elementwise_grad(anp.tanh)
+    dtanh = [dtanh_plain]
+
     def f(*args, scale=1.0):
         u = args[0]
         v = args[1] if nargs > 1 else u * 0.5
         w = args[2] if nargs > 2 else 1.0
+        if form == 4:
+            # v only selects branches (a mask): the output does not depend on it, although it is a differentiated argument
+            return scale * anp.sum(anp.where(v > 0.6, anp.sin(u) * u, u * u * u)) * anp.sum(w * anp.ones(n))
+        if form == 5:
+            return scale * anp.sum(dtanh[0](u) * v * w)
         if form == 0:
             return scale * anp.sum(anp.sin(u) * v * w)
         if form == 1:
@@ -375,7 +384,17 @@ def checkpoint_body(c):
             return scale * anp.sum(anp.tanh(u) * anp.tanh(v)) * anp.sum(w * anp.ones(n))
         return scale * anp.sum(u * u * v + anp.sin(w * v))
 
-    ck = autograd.checkpoint(f)
+    if form == 5:
+        dtanh_ck = autograd.checkpoint(dtanh_plain)
+
+        def ck(*args, **kw):
+            dtanh[0] = dtanh_ck
+            try:
+                return f(*args, **kw)
+            finally:
+                dtanh[0] = dtanh_plain
+    else:
+        ck = autograd.checkpoint(f)
     x0 = values.generic(vseed, [(n,)], -1.0, 1.0, stream=3)[0][0]
 
     def compose(fn):
